@@ -250,6 +250,12 @@ def invalidate (s : State) (k : Oid) : State :=
 
 def invalidateAll (s : State) (ks : List Oid) : State := ks.foldl invalidate s
 
+/-- `self._savepoint_storage is not None and oid in self._savepoint_storage.creating` -/
+def tmpCreated (s : State) (k : Oid) : Bool :=
+  match s.sp with
+  | some t => t.creating.has k
+  | none => false
+
 /-- body of the loop of `_abort` -/
 def abortOne (s : State) (i : ObjId) : State :=
   match (s.objs i).oid with
@@ -258,7 +264,8 @@ def abortOne (s : State) (i : ObjId) : State :=
     if s.added.has k then
       let s := { s with added := s.added.del k, cache := s.cache.del k }
       disown s i
-    else if s.creating.has k then s      -- a new object that is stored already: disowned later, keeps its state
+    else if s.creating.has k || tmpCreated s k then s
+      -- a new object that is stored already (by this commit or by a savepoint): disowned later, keeps its state
     else invalidate s k
 
 /-- `_abort` -/
